@@ -144,25 +144,6 @@ def check(ctx):
             detail = f"presyn {pp!r}, postsyn {qp!r}, weight rank {wr}"
         ctx.ob("C05.a", f"{c.name}: receptive views broadcast against the weight (rank = weight rank + batch + receptive)", ok, detail, pre.where)
 
-    # merged parameter axes: the selector flattens the delay exactly as forward flattens the weight
-    for c in classes:
-        sel = c.find_prop("selector", "get")
-        sp, _ = _ret_pattern(P, sel)
-        fw = c.find_method("forward")
-        if not sp:
-            continue
-        so = einops_alg.Pattern(sp)
-        merged_sel = [g for g in so.output.groups if len(g) > 1]
-        flats = []
-        for x in P.calls_in(fw):
-            if dotted(x.func) == "ein.rearrange" and x.args and dotted(x.args[0]) == "self.weight":
-                pw = einops_alg.Pattern(_pattern_of(x))
-                if pw.inputs[0].groups == so.inputs[0].groups:
-                    flats += [g for g in pw.output.groups if len(g) > 1]
-        if merged_sel or flats:
-            ok = merged_sel == flats and len(flats) == 1
-            ctx.ob("C05.a", f"{c.name}: selector merges the delay axes in the order forward merges the weight axes", ok,
-                   f"selector {merged_sel}, weight {flats}" + ("" if ok else " — each synapse would be read with another kernel tap's delay"), sel.where)
     # ---------------- (b) map structure
     dense = P.cls("LinearDense").methods["forward"]
     ctx.touch(dense)
